@@ -669,7 +669,24 @@ func TestAggregates(t *testing.T) {
 	check("SELECT maxIf(n, isNotNull(n)) FROM t WHERE k = 'b'", nil)
 	check("SELECT countIf(n, isNotNull(n)) FROM t WHERE k = 'b'", u(0)) // count is never NULL
 	check("SELECT sumIf(n, isNotNull(n)) FROM t", 4.0)
-	check("SELECT sumIf(a2, isNotNull(a2)) != 5 FROM (SELECT anyIf(toFloat64OrNull(k), v > 0) AS a2 FROM t GROUP BY k) WHERE 1", nil)
+	// statically Nullable argument (an *OrNull call) and zero admitted rows: NULL,
+	// even though the rejected rows carry non-NULL values
+	check("SELECT anyIf(toFloat64OrNull(toString(v)), k = 'zz') FROM t", nil)
+	check("SELECT sumIf(toFloat64OrNull(toString(v)), k = 'zz') FROM t", nil)
+	check("SELECT countIf(toFloat64OrNull(toString(v)), k = 'zz') FROM t", u(0))
+	check("SELECT anyIf(toFloat64OrNull(toString(v)), k = 'b') FROM t", 10.0)
+	check("SELECT max(nullIf(v, 0)) FROM t WHERE v > 100", nil)
+	check("SELECT min(n) FROM t WHERE v > 100", nil) // Nullable column
+	// the TraceQL shape: a matched span lacking the aggregated attribute: agg_val is
+	// NULL for every group, maxIf(...) is NULL and HAVING drops all groups
+	if got := rowsOf(t, db, "SELECT k FROM (SELECT k, anyIf(toFloat64OrNull(toString(v)), k == 'nope') AS agg_val FROM t GROUP BY k) "+
+		"GROUP BY k HAVING maxIf(agg_val, isNotNull(agg_val)) <= 4"); len(got) != 0 {
+		t.Errorf("groups without the aggregated attribute must be dropped: %v", got)
+	}
+	if res, err := db.Query("SELECT anyIf(toFloat64OrNull(toString(v)), k = 'b') AS x, sum(v) AS s FROM t"); err != nil ||
+		!reflect.DeepEqual(res.Types, []string{"Nullable(Float64)", "Int64"}) {
+		t.Errorf("static nullability in Result.Types: %v %v", res, err)
+	}
 	// quantile: sorted values 1,2,4,8; level 0.5 -> index 1.5 -> 2*0.5 + 4*0.5 = 3
 	check("SELECT quantile(0.5)(f) FROM t", 3.0)
 	check("SELECT quantile(f) FROM t", 3.0)
